@@ -1,7 +1,7 @@
 """C04 Every uplink follows the WARP link state machine; no fabricated frames."""
 from mirlib import AnchorMissing, describe_operand, dom_guards, guards, _suffix_match
 from rules import uplinks
-from rules.common import aggregates, callers_by_name, owner_def, where
+from rules.common import named_argument_rule, aggregates, callers_by_name, owner_def, where
 
 META = {
     "explanation": (
@@ -168,14 +168,38 @@ def run(ctx):
         r.check(any(any(d.startswith("linked_from(") or "linked_from" in d and l == "None" for d, l, _ in dom_guards(he, z[0])) for z in zero), "handle_event/no-links=>discard", where(he),
                 "an event for a lane without links is discarded (Writes::Zero)")
         # implicit link: on !is_linked: links.insert and push_special(Linked) dominate push_write; order of the pair (w1, w2)
-        isl = [c for c in he.calls if c.is_method("links::Links", "is_linked")]
         ins = [c for c in he.calls if c.is_method("links::Links", "insert")]
         sp = [c for c in he.calls if c.name == "push_special"]
         pws = [c for c in he.calls if c.name == "push_write"]
-        if len(isl) != 1 or len(ins) != 1 or len(sp) != 1:
-            raise AnchorMissing("handle_event: implicit link sites")
-        be = he.bool_edges(isl[0])
-        r.check(be is not None and he.dominates(be[1], ins[0].block) and he.dominates(be[1], sp[0].block), "handle_event/implicit-link-iff-not-linked", isl[0].loc(), "links.insert + Linked only on the not-linked edge")
+        if len(ins) != 1 or len(sp) != 1:
+            raise AnchorMissing("handle_event: implicit link sites (links.insert %d, push_special %d)" % (len(ins), len(sp)))
+        # the test that decides "not linked yet" has to be about this (lane, remote) pair: a remote that is linked to
+        # another lane only must still get `linked` for this one before any of its frames
+        lane_d, remote_d = describe_operand(he, ins[0].args[1]), describe_operand(he, ins[0].args[2])
+        g = dom_guards(he, ins[0].block)
+        def all_args(d):
+            """all (nested) call arguments of a rendered expression"""
+            out, depth, cur, stack = [], 0, "", []
+            for ch in d:
+                if ch == "(":
+                    stack.append(cur)
+                    cur = ""
+                elif ch == ")":
+                    if cur.strip():
+                        out.append(cur.strip())
+                    cur = stack.pop() + "()" if stack else ""
+                elif ch == "," :
+                    if cur.strip():
+                        out.append(cur.strip())
+                    cur = ""
+                else:
+                    cur += ch
+            return out
+        pair_tests = [(d, l) for d, l, _ in g if "links" in d and lane_d in all_args(d) and remote_d in all_args(d)]
+        r.check(len(pair_tests) >= 1 and all(l == "false" for d, l in pair_tests if d.startswith("is_linked(")), "handle_event/implicit-link-iff-pair-not-linked", ins[0].loc(),
+                "links.insert + Linked exactly when this (remote, lane) pair is not linked (%s)" % (pair_tests[0][0][:50] if pair_tests else ""),
+                "the implicit link is decided by %s, which does not test the (remote %s, lane %s) pair: a remote linked to another lane gets this lane's frames without `linked` and is never recorded as linked" % ([(d[:50], l) for d, l, _ in g if "links" in d or "link" in d][-2:], remote_d, lane_d))
+        r.check(all(any(dd == d and ll == l for dd, ll, _ in dom_guards(he, sp[0].block)) for d, l in pair_tests), "handle_event/Linked-under-the-same-test", sp[0].loc(), "the Linked frame is queued under the same test as the registration")
         first = [c for c in pws if he.dominates(sp[0].block, c.block)]
         r.check(len(first) == 1 and he.dominates(ins[0].block, sp[0].block), "handle_event/linked-before-data", sp[0].loc(), "insert, then push_special(Linked), then push_write on the implicit-link path",
                 "data is queued before the implicit Linked")
@@ -196,3 +220,6 @@ def run(ctx):
                     if ii == i and rv[0] == "agg" and rv[1].get("variant") == "Single":
                         d = describe_operand(wn, rv[2][0])
                         r.check(d.endswith("<Two>.1"), "Writes::next/first-then-second", wn.loc(line), "Two(a, b) yields a and keeps b (%s)" % d, "Two(a, b) keeps %s: the pair is yielded in the wrong order" % d)
+
+    with ctx.rule("C04.R9", "T5", "named arguments are passed in their parameters' positions (no two flags or ids change places at a call site)", floor=20) as r:
+        named_argument_rule(ctx, r, [("swimos_runtime", "swimos_runtime::agent::task")], allow={})
